@@ -37,7 +37,8 @@ RULE = (
     "generator's samples, plus the bare kernel on synthetic wave vectors (axis aligned, k_1=0, |k| 1e-6..1e6). moments: mean and "
     "per-component variance over 300 (quick) / 600 (thorough) seeds at 6 points + law of the projected directions over all modes; "
     "|z|<=7 with one confirmation run on fresh seeds with 4x the sample. Non-trivial: >= 16 modes, some point off the origin and "
-    "(mean velocity != 1 or model off default); distinct by hash of the rounded case."
+    "(mean velocity != 1 or model off default); moments: mean velocity != 1 or model off default (few modes are the harder case "
+    "there); distinct by hash of the rounded case."
 )
 ASSUMPTIONS = [
     "the documented field formula of IncomprRandMeth (class docstring) is the specification; the projector is p(k) = e_1 - k k_1/|k|^2",
@@ -95,7 +96,9 @@ def mode_sum_cond(k, a, b, x):
     A rounding error of the phase of relative size eps moves a mode by
     eps * |phase|_abs * amplitude; products and cos/sin add a few eps * amplitude.
     """
-    pa = np.abs(projector(k)) * (np.abs(a) + np.abs(b))  # (dim, N)
+    # + 0.01: p_1 = 1 - k_1^2/|k|^2 is a cancelling subtraction with an absolute error of a few eps
+    # (at the 1e-13 relative tolerance used with this bound 0.01 stands for 1e-15 ~ 4 eps)
+    pa = (np.abs(projector(k)) + 0.01) * (np.abs(a) + np.abs(b))  # (dim, N)
     ph = 1.0 + np.abs(k).T @ np.abs(x)  # (N, n)
     return pa @ ph
 
@@ -359,7 +362,7 @@ def gen_fd(draw, tier="quick"):
         "pos": draw(_points(dim, spec["len_scale"], n_max=3, mag=(1e-2, 30.0))),
         "variant": draw(st.sampled_from(["points", "points", "structured"])),
     }
-    if draw(st.sampled_from([True] + [False] * 6)):
+    if draw(st.sampled_from([False, False, False, True, False, False, False])):
         nang = dim * (dim - 1) // 2
         ang = draw(st.lists(st.floats(-math.pi, math.pi), min_size=nang, max_size=nang))
         if all(a == 0 for a in ang):
@@ -438,9 +441,11 @@ def check_fd(case, rec):
         if noise > 0.1 * tol:
             rec.exclude("fd_ill_conditioned")
             continue
-        if tol > 0:
-            rec.discrepancy("fd_rotated" if rotated else "fd_divergence", div, tol)
+        if tol > 0 and (div <= tol or not rotated):
+            rec.discrepancy("fd_divergence", div, tol)
         if div <= tol:
+            if rotated:
+                rec.label("rotated_isotropic_still_solenoidal")
             continue
         msg = (
             f"finite-difference divergence {np.trace(J):.4g} at x={x0.tolist()} (diagonal {np.diag(J).tolist()}, "
@@ -496,7 +501,7 @@ def _kvec(dim):
 
 @st.composite
 def gen_projector(draw, tier="quick"):
-    if draw(st.sampled_from([True, False, False])):
+    if draw(st.sampled_from([False, True, False])):
         dim = draw(st.sampled_from([2, 3]))
         n_modes = draw(st.one_of(st.integers(1, 24), st.integers(16, 24)))
         kk = draw(st.lists(_kvec(dim), min_size=n_modes, max_size=n_modes))
@@ -546,7 +551,7 @@ def check_projector(case, rec):
         z1, z2 = np.ascontiguousarray(z[:, 0]), np.ascontiguousarray(z[:, 1])
         kn = np.sqrt(np.sum(k * k, axis=0))
         pos = np.array(case["pos"], dtype=float).reshape(dim, -1) * case["xscale"] / float(np.min(kn))
-        rec.label("k_axis" if np.any(np.sum(k != 0, axis=0) == 1) else "k_generic")
+        rec.label("k_some_axis_aligned" if np.any(np.sum(k != 0, axis=0) == 1) else "k_none_axis_aligned")
         rec.nontrivial(k.shape[1] >= 16 and bool(np.any(pos != 0)))
         _check_orthogonal(k, tags)
         got = np.asarray(lib(summate_incompr, k, z1, z2, pos, _tags=tags), dtype=float)
@@ -591,8 +596,8 @@ def check_projector(case, rec):
     i, j = np.unravel_index(int(np.argmax(err / tol)), err.shape)
     require(
         bool(np.all(err <= tol)),
-        f"component {i} at x={pos[:, j].tolist()}: SRF gives {out[i, j]!r}, U d_i1 + U sqrt(var/N) sum_j p_i(k_j)(z1 cos + z2 sin) "
-        f"gives {want[i, j]!r} (tol {tol[i, j]:.3g}); U={mean_u}, var={spec['var']}, N={n_modes}",
+        f"component {i} at x={pos[:, j].tolist()}: SRF gives {float(out[i, j])!r}, U d_i1 + U sqrt(var/N) sum_j p_i(k_j)(z1 cos + z2 sin) "
+        f"gives {float(want[i, j])!r} (tol {tol[i, j]:.3g}); U={mean_u}, var={spec['var']}, N={n_modes}",
         tags,
     )
 
@@ -735,8 +740,8 @@ def check_moments(case, rec):
 
 
 SUBS = [
-    Sub("kernel_div", gen_kernel, check_kernel, quick=480, thorough=16000, shards_quick=4, shards_thorough=4),
+    Sub("kernel_div", gen_kernel, check_kernel, quick=480, thorough=10000, shards_quick=4, shards_thorough=4),
     Sub("fd_div", gen_fd, check_fd, quick=450, thorough=12000, shards_quick=3, shards_thorough=4),
-    Sub("projector", gen_projector, check_projector, quick=600, thorough=16000, shards_quick=3, shards_thorough=3),
-    Sub("moments", gen_moments, check_moments, quick=24, thorough=240, shards_quick=6, shards_thorough=5, shrink_quick=False),
+    Sub("projector", gen_projector, check_projector, quick=600, thorough=12000, shards_quick=3, shards_thorough=3),
+    Sub("moments", gen_moments, check_moments, quick=24, thorough=160, shards_quick=6, shards_thorough=5, shrink_quick=False),
 ]
